@@ -34,6 +34,12 @@ R19.13 a handler of the serializer which tries the failed primitive again
        another way (fallback) catches at least what the handler around that
        retry gives up on.  Decided by agreement of the two handlers inside the
        package: what dill really raises is out of reach (external, C code)
+R19.16 a file the serializer writes a payload to is opened in a truncating
+       mode ('w'): the reader takes one object from the start of the file, so
+       an appended payload ('a') is never read, an exclusive create ('x')
+       fails for the second payload, 'r+' for the first (cf. R09.10).  The mode
+       is followed through locals, module constants, conditional expressions
+       and a parameter (default + callers inside the module)
 R19.2  also runs a loop over a constant table of (modes, attribute, ..) rows
        row by row (VerifyModel._explore)
 R19.14 a payload value which an encoder reads back from a keyed store that
@@ -1541,19 +1547,27 @@ class Pipes:
             if isinstance(n, ast.Assign) and len(n.targets) == 1 and \
                     isinstance(n.targets[0], ast.Name):
                 names.setdefault(n.targets[0].id, []).append(n.value)
+            pairs = []
             if isinstance(n, ast.With):
-                for it in n.items:
-                    c = it.context_expr
-                    if isinstance(c, ast.Call) and dotted(c.func) == 'open' \
-                            and isinstance(it.optional_vars, ast.Name):
-                        mode = kwarg(c, 'mode', 1)
-                        mv = self.prog.fold(f.module, mode) if mode is not \
-                            None else 'r'
-                        if not isinstance(mv, str):
-                            raise Unrec('open() mode of %s' % f.where)
-                        files[it.optional_vars.id] = (
-                            'file:b' if 'b' in mv else 'file:t',
-                            'w' if ('w' in mv or 'a' in mv) else 'r', c)
+                pairs = [(it.optional_vars, it.context_expr)
+                         for it in n.items]
+            elif isinstance(n, ast.Assign) and len(n.targets) == 1:
+                pairs = [(n.targets[0], n.value)]
+            for var, c in pairs:
+                if not (isinstance(c, ast.Call) and isinstance(var, ast.Name)):
+                    continue
+                parts = _open_parts(self.prog, f, c)
+                if parts is None or parts[2]:
+                    continue
+                mvs = _mode_values(self.prog, f, parts[1])
+                if mvs is None or len({'b' in m for m in mvs}) != 1 or \
+                        len({bool(set(m) & set('wax+')) for m in mvs}) != 1:
+                    raise Unrec('open() mode of %s' % f.where)
+                mv = sorted(mvs)[0]
+                files[var.id] = (
+                    'file:b' if 'b' in mv else 'file:t',
+                    'w' if set(mv) & set('wax+') else 'r', c, parts[0])
+                names.pop(var.id, None)
         return names, files
 
     def pipe(self, f, expr, sources, env=None, depth=0):
@@ -1569,8 +1583,7 @@ class Pipes:
             if expr.id in files:
                 if files[expr.id][1] != 'r':
                     raise Unrec('file %s is not opened for reading' % expr.id)
-                fn = files[expr.id][2].args[0] if files[expr.id][2].args \
-                    else None
+                fn = files[expr.id][3]
                 if fn is None:
                     raise Unrec('open() without file name')
                 return self.pipe(f, fn, sources, env, depth + 1) + \
@@ -1734,18 +1747,38 @@ class Pipes:
         out = set()
         # writes into a file opened for writing
         wrote = None
+        rets = {unparse(n.value) for n in walk(f.node)
+                if isinstance(n, ast.Return) and n.value is not None}
+        side = []
         for c in calls_in(f.node):
+            ent = None
             if isinstance(c.func, ast.Attribute) and c.func.attr == 'write' \
                     and isinstance(c.func.value, ast.Name) and \
                     c.func.value.id in files and \
                     files[c.func.value.id][1] == 'w' and c.args:
-                wrote = (files[c.func.value.id], self.pipe(
-                    f, c.args[0], src, (names, files)))
+                ent = files[c.func.value.id]
+            else:
+                parts = _open_parts(self.prog, f, c)
+                if parts is not None and parts[2] and c.args:
+                    # pathlib write_bytes / write_text
+                    ent = ('file:b' if 'b' in parts[1].value else 'file:t',
+                           'w', c, parts[0])
+            if ent is None:
+                continue
+            if ent[3] is not None and unparse(ent[3]) not in rets and rets:
+                # a file next to the one whose name the function hands back
+                # (a log, a trace): not the encoded value
+                side.append(ent)
+                continue
+            wrote = (ent, self.pipe(f, c.args[0], src, (names, files)))
+        if wrote is None and side:
+            raise Unrec('%s writes a file but returns `%s`'
+                        % (f.where, ' / '.join(sorted(rets))[:40]))
         for n in walk(f.node):
             if isinstance(n, ast.Return) and n.value is not None:
                 if wrote is not None:
                     # the function hands back the name it wrote to
-                    fname = wrote[0][2].args[0] if wrote[0][2].args else None
+                    fname = wrote[0][3]
                     if fname is None or unparse(fname) != unparse(n.value):
                         raise Unrec('%s writes a file but returns `%s`'
                                     % (f.where, short(n.value, 30)))
@@ -3504,6 +3537,1995 @@ def r19_13(prog, rep, rid='R19.13'):
                    % name, fn.loc())
 
 
+# ------------------------------------------------------------------------------
+# R19.16  a payload file holds the payload of the last encoder call only
+#
+_OPEN_FUNCS = {'open', 'io.open', 'ru.ru_open', 'ru_open', 'codecs.open',
+               'gzip.open', 'bz2.open', 'lzma.open', 'os.fdopen'}
+_LOADERS    = {'dill.load', 'pickle.load'}
+
+
+def _all_funcs(module):
+    """every function of the module: top level, methods, nested ones"""
+    todo = list(module.funcs.values())
+    for c in module.classes.values():
+        todo += list(c.methods.values())
+    out = []
+    while todo:
+        f = todo.pop()
+        out.append(f)
+        todo += list(f.nested.values())
+    return sorted(out, key=lambda f: f.node.lineno)
+
+
+def _open_parts(prog, f, c):
+    """(file expr, mode expr or None, whole) if the call opens a file; whole:
+    the call writes the file in one go (pathlib write_bytes / write_text)"""
+    def path_of(e):
+        if isinstance(e, ast.Call) and (dotted(e.func) or '').split('.')[-1] \
+                in ('Path', 'PurePath', 'PosixPath') and len(e.args) == 1 \
+                and not e.keywords:
+            return e.args[0]
+        return e
+    limp = scope_imports(f)
+    d = dotted(c.func)
+    r = prog.resolve(f.module, c.func, limp) if d else None
+    ext = r[1] if r and r[0] == 'ext' else None
+    if d in _OPEN_FUNCS or ext in _OPEN_FUNCS:
+        return path_of(kwarg(c, 'file', 0)), kwarg(c, 'mode', 1), False
+    if isinstance(c.func, ast.Attribute) and c.func.attr == 'open':
+        if ext is not None or (r and r[0] == 'mod'):
+            return None                      # os.open, webbrowser.open, ...
+        b = prog.resolve(f.module, c.func.value, limp) \
+            if dotted(c.func.value) else None
+        if b and b[0] in ('ext', 'mod'):
+            return None
+        return path_of(c.func.value), kwarg(c, 'mode', 0), False
+    if isinstance(c.func, ast.Attribute) and \
+            c.func.attr in ('write_bytes', 'write_text'):
+        # pathlib: creates / truncates the file
+        return path_of(c.func.value), ast.Constant(
+            value='wb' if c.func.attr == 'write_bytes' else 'w'), True
+    return None
+
+
+def _file_opens(prog, f):
+    """[(call, file expr, mode expr or None)] of the file opens in f itself"""
+    out = []
+    for c in _own_nodes(f.node):
+        if isinstance(c, ast.Call):
+            parts = _open_parts(prog, f, c)
+            if parts is not None:
+                out.append((c, parts[0], parts[1]))
+    return out
+
+
+def _param_default(f, name):
+    """default expression of parameter `name`, 'var' for *args/**kwargs,
+    None if it has no default"""
+    a = f.node.args
+    if a.vararg and a.vararg.arg == name:
+        return 'var'
+    if a.kwarg and a.kwarg.arg == name:
+        return 'var'
+    pos = a.posonlyargs + a.args
+    for p, d in zip(pos[len(pos) - len(a.defaults):], a.defaults):
+        if p.arg == name:
+            return d
+    for p, d in zip(a.kwonlyargs, a.kw_defaults):
+        if p.arg == name and d is not None:
+            return d
+    return None
+
+
+def r19_4(prog, rep, rid='R19.4'):
+    rep.rule(rid, 'serialize_*/deserialize_* compose inverse primitives in '
+             'reverse order; the PythonTask encoders and get_func_attr agree '
+             'on keys, per-key codecs and the outer codec; a default of None '
+             'is not handed to a consumer which unpacks it', minimum=19)
+    rep.rule('R19.4b', 'every value of a PythonTask payload is encoded '
+             'inside the function which builds the payload (at call time), '
+             'not once in an enclosing scope', minimum=6)
+    rep.rule('R19.9', 'every value of a PythonTask payload which the decoder '
+             'reads is, for every set argument, computed from a parameter of '
+             'the encoder (what the caller handed in) - not a literal, not '
+             'the wrapper or another object of the program; two entries are '
+             'not made from one parameter while another reaches none',
+             minimum=8)
+    rep.rule('R19.14', 'a payload value which an encoder reads back from a '
+             'keyed store that outlives the call (a memo of the encoded '
+             'function) is stored under a key which carries every parameter '
+             'the entry is made from as it is (the parameter, a tuple with '
+             'it, id() of it) - a key computed from a part of the argument '
+             '(an attribute, getattr, type, a name) lets two different '
+             'arguments share the entry of the first', minimum=6)
+    P = Pipes(prog)
+    ser = prog.module(SER)
+    # (d) primitives
+    pairs = []
+    for name, f in sorted(ser.funcs.items()):
+        if name.startswith('serialize_'):
+            g = ser.funcs.get('de' + name)
+            if g is None:
+                rep.bad(rid, f, 'no inverse', '%s has no de%s' % (name, name),
+                        f.loc())
+                continue
+            pairs.append((f, g))
+    if len(pairs) < 3:
+        raise AnalysisError('%s: only %d serialize_/deserialize_ pairs in %s'
+                            % (rid, len(pairs), SER))
+    for f, g in pairs:
+        rep.saw(f)
+        rep.saw(g)
+        try:
+            ep, dp = P.func_pipes(f), P.func_pipes(g)
+        except Unrec as e:
+            raise AnalysisError('UNRECOGNISED-IDIOM %s / %s: %s'
+                                % (f.where, g.where, e))
+        okp = all(inverse(list(e), list(d)) for e in ep for d in dp)
+        rep.check(okp, rid, g,
+                  '%s undoes %s: %s <-> %s' % (g.name, f.name,
+                                               sorted(ep), sorted(dp)),
+                  construct='%s/%s' % (f.name, g.name),
+                  message='%s applies %s, %s applies %s: not the inverse '
+                  'primitives in reverse order' % (
+                      f.name, [list(e) for e in sorted(ep)], g.name,
+                      [list(d) for d in sorted(dp)]),
+                  loc=g.loc(),
+                  history='%s(%s(x)) raises or differs from x for every x'
+                  % (g.name, f.name))
+    # PythonTask
+    dec = prog.method(PYT[0], PYT[1], 'get_func_attr')
+    rep.saw(dec)
+    dparams = dec.params
+    if not dparams:
+        raise AnalysisError('%s has no parameter' % dec.where)
+    # the decoded object: name bound to <codec>(param)
+    obj, obj_expr = None, None
+    for n in walk(dec.node):
+        if isinstance(n, ast.Assign) and len(n.targets) == 1 and \
+                isinstance(n.targets[0], ast.Name) and \
+                isinstance(n.value, ast.Call) and n.value.args and \
+                isinstance(n.value.args[0], ast.Name) and \
+                n.value.args[0].id == dparams[0]:
+            obj, obj_expr = n.targets[0].id, n.value
+    if obj is None:
+        raise AnalysisError('UNRECOGNISED-IDIOM %s: the decoded object is not '
+                            'bound to a name' % dec.where)
+
+    def is_item(e):
+        return isinstance(e, ast.Subscript) and isinstance(e.value, ast.Name) \
+            and e.value.id == obj and isinstance(e.slice, ast.Constant)
+
+    try:
+        d_outer = P.pipe(dec, obj_expr, lambda e: isinstance(e, ast.Name)
+                         and e.id == dparams[0])
+    except Unrec as e:
+        raise AnalysisError('UNRECOGNISED-IDIOM %s: %s' % (dec.where, e))
+    d_keys = {}              # key -> (expr which decodes it, pipeline)
+    for n in walk(dec.node):
+        vals = []
+        if isinstance(n, ast.Assign):
+            vals = [n.value]
+        elif isinstance(n, ast.Return) and n.value is not None:
+            vals = n.value.elts if isinstance(n.value, ast.Tuple) \
+                else [n.value]
+        for v in vals:
+            items = [x for x in walk(v) if is_item(x)]
+            ks = {x.slice.value for x in items}
+            if len(ks) != 1:
+                continue
+            k = list(ks)[0]
+            core = v
+            normal = False
+            if isinstance(v, ast.BoolOp) and isinstance(v.op, ast.Or) and \
+                    any(is_item(x) for x in walk(v.values[0])):
+                core, normal = v.values[0], True
+            if isinstance(v, ast.IfExp):
+                normal = True
+                core = v.body if any(is_item(x) for x in walk(v.body)) \
+                    else v.orelse
+            try:
+                d_keys[k] = (v, P.pipe(dec, core, is_item), normal)
+            except Unrec as e:
+                raise AnalysisError('UNRECOGNISED-IDIOM %s: %s'
+                                    % (dec.where, e))
+    if not d_keys:
+        raise AnalysisError('UNRECOGNISED-IDIOM %s reads no key of the '
+                            'decoded object' % dec.where)
+    # schema test of the decoder: `k not in obj for k in (...)`: the keys it
+    # demands (a payload without one of them is refused)
+    demanded = set()
+    for n in walk(dec.node):
+        if isinstance(n, ast.GeneratorExp) and len(n.generators) == 1 and \
+                isinstance(n.elt, ast.Compare) and \
+                isinstance(n.elt.ops[0], (ast.In, ast.NotIn)) and \
+                isinstance(n.elt.comparators[0], ast.Name) and \
+                n.elt.comparators[0].id == obj:
+            want = prog.fold(dec.module, n.generators[0].iter)
+            if want is not UNKNOWN:
+                demanded |= set(want)
+    for n in walk(dec.node):
+        if isinstance(n, ast.For) and isinstance(n.target, ast.Name):
+            want = fold_name(prog, dec.module, n.iter)
+            if isinstance(want, (list, tuple)) and any(
+                    isinstance(c, ast.Compare) and len(c.ops) == 1 and
+                    isinstance(c.ops[0], (ast.In, ast.NotIn)) and
+                    isinstance(c.left, ast.Name) and
+                    c.left.id == n.target.id and
+                    isinstance(c.comparators[0], ast.Name) and
+                    c.comparators[0].id == obj for c in walk(n)):
+                demanded |= set(want)
+    encs = _encoders(prog)
+    if len(encs) < 2:
+        raise AnalysisError('%s: only %d PythonTask encoder(s) found'
+                            % (rid, len(encs)))
+    consumer = _consumer_unpacks(prog, dec, d_keys)
+    for enc in encs:
+        f, lit = enc['f'], enc['anchor']
+        of, olit, ret = enc['of'], enc['olit'], enc['oret']
+        rep.saw(f)
+        keys = dict_keys(prog, of.module, of.cls, olit)
+        need = set(d_keys) | demanded
+        rep.check(need <= set(keys), rid, f,
+                  '%s encodes every key the decoder reads or demands %s'
+                  % (f.qual, sorted(need)), construct='keys',
+                  message='%s encodes keys %s, get_func_attr reads %s and '
+                  'demands %s: %s missing' % (
+                      f.qual, sorted(keys), sorted(d_keys), sorted(demanded),
+                      sorted(need - set(keys))), loc=f.loc(lit),
+                  history='every task encoded by %s fails to decode '
+                  '(KeyError / TypeError in get_func_attr)' % f.qual)
+        try:
+            e_outer = P.pipe(of, ret.value, lambda e: e is olit or (
+                isinstance(e, ast.Name) and isinstance(ret.value.args[0],
+                                                       ast.Name)
+                and e.id == ret.value.args[0].id))
+        except Unrec as e:
+            raise AnalysisError('UNRECOGNISED-IDIOM %s: %s' % (f.where, e))
+        rep.check(inverse(e_outer, d_outer), rid, f,
+                  '%s: outer codec %s is undone by the decoder %s'
+                  % (f.qual, e_outer, d_outer), construct='outer codec',
+                  message='%s encodes the task with %s, get_func_attr decodes '
+                  'with %s' % (f.qual, e_outer, d_outer), loc=of.loc(ret),
+                  history='get_func_attr(%s(...)) raises' % f.qual)
+        params = set()
+        for h in (f, f.parent):
+            if h is None:
+                continue
+            own = list(h.params)
+            if h.cls is not None and h.parent is None and own and not any(
+                    isinstance(d, ast.Name) and d.id == 'staticmethod'
+                    for d in h.node.decorator_list):
+                own = own[1:]           # cls / self: not given by the caller
+            params |= set(own)
+        values = dict(zip(keys, enc['values']))
+        carried = {}             # payload key -> parameters it is made from
+        for k in sorted(set(keys) | set(d_keys)):
+            if k not in d_keys or k not in values:
+                # reported by the key-set obligation above
+                rep.ok(rid, f, '%s: key %r has no counterpart to compare'
+                       % (f.qual, k), f.loc(lit))
+                rep.ok('R19.4b', f, '%s: key %r has no counterpart'
+                       % (f.qual, k), f.loc(lit))
+                rep.ok('R19.9', f, '%s: key %r has no counterpart'
+                       % (f.qual, k), f.loc(lit))
+                rep.ok('R19.14', f, '%s: key %r has no counterpart'
+                       % (f.qual, k), f.loc(lit))
+                continue
+            v = values[k]
+            P.hoisted = []
+            P.memos = []
+            hits = carried.setdefault(k, [])
+            try:
+                ek = P.pipe(f, v, lambda e: isinstance(e, ast.Name)
+                            and e.id in params and
+                            (hits.append(e.id) or True))
+            except NoSource as e:
+                rep.bad('R19.9', f, '%s: not from a parameter' % k,
+                        '%s puts `%s` into the payload under %r; for a set '
+                        'argument that value is %s, whatever the caller '
+                        'passed: get_func_attr decodes it without complaint, '
+                        'and the call made from the decoded (func, args, '
+                        'kwargs) is not the call the application encoded'
+                        % (f.qual, short(v, 50), k, e.why), f.loc(v),
+                        history={
+                            'func': 'decoding a task encoded by %s gives a '
+                            'callable which is not the function handed in: '
+                            'calling it with the decoded arguments returns '
+                            'something else than f(*args, **kwargs) (for the '
+                            'wrapper itself: another encoded task)' % f.qual,
+                        }.get(k, "%s with %s set (e.g. {'y': 5} / (1, 2)): "
+                              "the decoded %s is %s, the call runs without "
+                              "the caller's %s" % (f.qual, k, k, e.why, k)))
+                for r2 in (rid, rid, 'R19.4b', 'R19.14'):
+                    rep.ok(r2, f, '%s: value of %r is not computed from a '
+                           'parameter (see R19.9)' % (f.qual, k), f.loc(v))
+                continue
+            except Unrec as e:
+                raise AnalysisError('UNRECOGNISED-IDIOM %s: value of %r in '
+                                    'the payload: %s' % (f.where, k, e))
+            hoisted = list(P.hoisted)
+            rep.ok('R19.9', f, '%s: value of %r is computed from a parameter '
+                   'of the encoder' % (f.qual, k), f.loc(v))
+            _memo_obligation(rep, f, k, v, list(P.memos), params)
+            rep.check(not hoisted, 'R19.4b', f,
+                      '%s: the value of %r is encoded when the payload is '
+                      'built' % (f.qual, k), construct='%s: encoded outside'
+                      % k,
+                      message='%s puts `%s` into the payload under %r, but '
+                      'that value was encoded (%s) in the enclosing %s, i.e. '
+                      'once when the wrapper was created and not when the '
+                      'payload is built: what is pickled by value (closure '
+                      'cells, defaults, attributes of a local function) is '
+                      'the state at decoration time. The other encoder%s '
+                      'encode%s at call time' % (
+                          f.qual, hoisted[0][1] if hoisted else '', k,
+                          ', '.join(hoisted[0][3]) if hoisted else '',
+                          hoisted[0][2].qual if hoisted else '',
+                          '' if len(encs) == 2 else 's',
+                          's' if len(encs) == 2 else ''),
+                      loc=f.loc(v),
+                      history='factor = 0; @pythontask def scaled(x): return '
+                      'x * factor; then factor = 2; scaled(10) -> the decoded '
+                      'callable returns 0, the function itself 20 (and '
+                      'PythonTask(scaled, (10,)) decodes to 20)')
+            rep.check(inverse(ek, d_keys[k][1]), rid, f,
+                      '%s: value of %r encoded with %s, decoded with %s'
+                      % (f.qual, k, ek, d_keys[k][1]),
+                      construct='codec:%s' % k,
+                      message='%s stores %r encoded with %s but get_func_attr '
+                      'decodes it with %s' % (f.qual, k, ek, d_keys[k][1]),
+                      loc=f.loc(v),
+                      history='the decoded %r is not what was encoded (or '
+                      'decoding raises)' % k)
+            # (c) None handed to a consumer which unpacks it
+            none_dflt = False
+            if isinstance(v, ast.BoolOp) and isinstance(v.op, ast.And):
+                # `x and ..`: an unset x is stored as it is
+                v = v.values[0]
+            if isinstance(v, ast.Name) and v.id in f.params:
+                dflt = _param_default(f, v.id)
+                rebound = any(
+                    isinstance(n, (ast.Assign, ast.AugAssign)) and v.id in
+                    [x.id for t in (n.targets if isinstance(n, ast.Assign)
+                                    else [n.target]) for x in walk(t)
+                     if isinstance(x, ast.Name)] for n in walk(f.node))
+                none_dflt = isinstance(dflt, ast.Constant) and \
+                    dflt.value is None and not rebound
+            unpack = consumer.get(k)
+            bad = none_dflt and not d_keys[k][2] and unpack is not None
+            rep.check(not bad, rid, f,
+                      '%s: %r is never None when the consumer unpacks it'
+                      % (f.qual, k), construct='%s=None' % k,
+                      message='%s stores its parameter %r (default None) '
+                      'under %r; get_func_attr returns it unchanged and %s '
+                      'unpacks it with `%s`' % (
+                          f.qual, v.id if isinstance(v, ast.Name) else k, k,
+                          unpack[0].qual if unpack else '',
+                          short(unpack[1], 50) if unpack else ''),
+                      loc=f.loc(v),
+                      history='PythonTask(f) without %s: get_func_attr '
+                      'returns %s=None and the call %s raises TypeError: the '
+                      'task fails although f is fine' % (
+                          k, k, short(unpack[1], 40) if unpack else ''))
+        _distinct_sources(rep, f, carried, params, lit)
+
+
+def _memo_obligation(rep, f, k, v, memos, params, rid='R19.14'):
+    """the payload value v (key k) of encoder f was resolved through the
+    reads `memos` of keyed stores"""
+    if not memos:
+        rep.ok(rid, f, '%s: the value of %r is computed by the call which '
+               'builds the payload, no store is read' % (f.qual, k), f.loc(v))
+        return
+    bad = None
+    notes = []
+    for m in memos:
+        try:
+            verdict, detail = memo_decide(m['f'], m, params)
+        except Unrec as e:
+            raise AnalysisError('UNRECOGNISED-IDIOM %s: value of %r in the '
+                                'payload: %s' % (f.where, k, e))
+        notes.append('`%s` %s' % (short(m['read'], 30), {
+            'local': 'lives for this call only',
+            'fresh': 'is stored by every call before it is read',
+            'keyed': 'is keyed by the parameters its entries are made from',
+            'coarse': 'is keyed too coarsely'}[verdict]))
+        if verdict == 'coarse' and bad is None:
+            bad = (m, detail)
+    m, (lost, key, val) = bad if bad else (memos[0], ((), None, None))
+    rep.check(bad is None, rid, f,
+              '%s: value of %r: %s' % (f.qual, k, '; '.join(notes)),
+              construct='%s: memo key' % k,
+              message='%s takes the payload value %r from the store `%s`, '
+              'which outlives the call and is filled only when the key is '
+              'new, under the key `%s`; the entry `%s` is made from the '
+              'parameter%s %s, which that key does not carry as %s: two '
+              'different arguments with an equal key (for a key made from an '
+              'attribute of a callable such as __code__ / __name__: closures '
+              'of one factory, functions which differ in defaults or cells, '
+              'bound methods of two instances) share one entry, and every '
+              'later payload carries the encoded value of the FIRST argument'
+              % (f.qual, k, short(m['cont'], 40),
+                 short(key, 60) if key is not None else '',
+                 short(val, 50) if val is not None else '',
+                 's' if len(lost) > 1 else '', ', '.join(map(repr, lost)),
+                 'they are' if len(lost) > 1 else 'it is'),
+              loc=f.loc(v),
+              history='def scale(n): return lambda x: x * n; '
+              '%s(scale(2), (3,)) then %s(scale(5), (3,)) in one process: '
+              'both closures have the same key, get_func_attr of the second '
+              'payload returns the first closure and the task computes 6 '
+              'instead of 15' % (f.qual.split('.')[0], f.qual.split('.')[0]))
+
+
+def _distinct_sources(rep, f, carried, params, lit):
+    """two payload entries made from the same parameter while another
+    parameter reaches none: one of the two names the wrong variable"""
+    used = {p for ps in carried.values() for p in ps}
+    twice = sorted(p for p in used
+                   if sum(1 for ps in carried.values() if p in ps) > 1)
+    a = f.node.args
+    own = [x.arg for x in a.posonlyargs + a.args + a.kwonlyargs] + \
+        [x.arg for x in (a.vararg, a.kwarg) if x is not None]
+    lost = sorted(p for p in own if p in params and p not in used)
+    bad = bool(twice and lost)
+    rep.check(not bad, 'R19.9', f,
+              '%s: the payload entries %s are made from different parameters'
+              % (f.qual, sorted(carried)), construct='same parameter twice',
+              message='%s makes the payload entries %s from the one parameter '
+              '%r while its parameter %r reaches no entry: the decoded call '
+              'gets %r in both places and never sees %r' % (
+                  f.qual, sorted(k for k, ps in carried.items()
+                                 if twice and twice[0] in ps),
+                  twice[0] if twice else '', lost[0] if lost else '',
+                  twice[0] if twice else '', lost[0] if lost else ''),
+              loc=f.loc(lit),
+              history='%s with both %s and %s set: get_func_attr returns the '
+              'value of %s for both' % (
+                  f.qual, twice[0] if twice else '', lost[0] if lost else '',
+                  twice[0] if twice else ''))
+
+
+def _consumer_unpacks(prog, dec, d_keys):
+    """{key: (FuncInfo, call)}: keys of the decoded task which the raptor
+    worker unpacks with * / ** without normalising them"""
+    out = {}
+    # position of each key in the tuple the decoder returns
+    pos = {}
+    names = {}
+    for n in walk(dec.node):
+        if isinstance(n, ast.Assign) and len(n.targets) == 1 and \
+                isinstance(n.targets[0], ast.Name):
+            for k, (v, p, normal) in d_keys.items():
+                if n.value is v:
+                    names[n.targets[0].id] = k
+    for n in walk(dec.node):
+        if isinstance(n, ast.Return) and isinstance(n.value, ast.Tuple):
+            for i, e in enumerate(n.value.elts):
+                if isinstance(e, ast.Name) and e.id in names:
+                    pos[i] = names[e.id]
+                for k, (v, p, normal) in d_keys.items():
+                    if e is v:
+                        pos[i] = k
+    if not pos:
+        return out
+    wc = prog.cls(*WRK)
+    for f in wc.methods.values():
+        for n in walk(f.node):
+            if not (isinstance(n, ast.Assign) and isinstance(n.value, ast.Call)
+                    and prog.resolve_call(f, n.value, wc) is dec and
+                    isinstance(n.targets[0], ast.Tuple)):
+                continue
+            for i, t in enumerate(n.targets[0].elts):
+                if i not in pos or not isinstance(t, ast.Name):
+                    continue
+                alias = {t.id}
+                normal = False
+                for _ in range(3):
+                    for a in walk(f.node):
+                        if isinstance(a, ast.Assign) and \
+                                len(a.targets) == 1 and \
+                                isinstance(a.targets[0], ast.Name):
+                            if isinstance(a.value, ast.Name) and \
+                                    a.value.id in alias:
+                                alias.add(a.targets[0].id)
+                            elif isinstance(a.value, (ast.BoolOp, ast.IfExp)) \
+                                    and any(isinstance(x, ast.Name) and
+                                            x.id in alias
+                                            for x in walk(a.value)):
+                                normal = True
+                if normal:
+                    continue
+                for c in calls_in(f.node):
+                    for a in c.args:
+                        if isinstance(a, ast.Starred) and \
+                                isinstance(a.value, ast.Name) and \
+                                a.value.id in alias:
+                            out.setdefault(pos[i], (f, c))
+                    for kw in c.keywords:
+                        if kw.arg is None and isinstance(kw.value, ast.Name) \
+                                and kw.value.id in alias:
+                            out.setdefault(pos[i], (f, c))
+    return out
+
+
+# ------------------------------------------------------------------------------
+# R19.5  slot converters
+#
+def _slot_reads(expr, slot):
+    """keys of the input slot read directly in expr"""
+    out = set()
+    for n in walk(expr):
+        k = self_key(n, slot)
+        if k is not None:
+            out.add(k)
+    return out
+
+
+def _prov(expr, env, slot):
+    """set of input-slot keys the value of expr is computed from"""
+    if expr is None:
+        return frozenset()
+    if isinstance(expr, (ast.ListComp, ast.SetComp, ast.GeneratorExp,
+                         ast.DictComp)):
+        env = dict(env)
+        for gen in expr.generators:
+            p = _prov(gen.iter, env, slot)
+            for nm in stores_in_target(gen.target):
+                env[nm] = p
+        parts = [expr.elt] if not isinstance(expr, ast.DictComp) else \
+            [expr.key, expr.value]
+        out = set()
+        for e in parts:
+            out |= _prov(e, env, slot)
+        return frozenset(out)
+    k = self_key(expr, slot)
+    if k is not None:
+        return frozenset([k])
+    if isinstance(expr, ast.Name):
+        return frozenset(env.get(expr.id, ()))
+    out = set()
+    for c in ast.iter_child_nodes(expr):
+        if isinstance(c, (ast.expr, ast.keyword, ast.comprehension)):
+            if isinstance(c, ast.keyword):
+                out |= _prov(c.value, env, slot)
+            elif isinstance(c, ast.expr):
+                out |= _prov(c, env, slot)
+    return frozenset(out)
+
+
+def scope_imports(fn):
+    """imports executed in the body of fn or of a function enclosing it"""
+    out, g = {}, fn
+    while g is not None:
+        for k, v in g.module.local_imports(g.node).items():
+            out.setdefault(k, v)
+        g = g.parent
+    return out
+
+
+def converter_funcs(prog, f):
+    """the converter and the helper functions of its module (nested or
+    module level) it calls"""
+    funcs = [f]
+    for fn in funcs:
+        for c in calls_in(fn.node):
+            callee = prog.resolve_call(fn, c)
+            if callee is not None and callee.cls is None and \
+                    callee.module is f.module and callee not in funcs:
+                funcs.append(callee)
+        if len(funcs) > 12:
+            break
+    return funcs
+
+
+def converter_facts(prog, f):
+    """per-slot loop of a converter: ({key: value expr}, sink node, [env per
+    path], discriminator keys)"""
+    g = cfg_of(f)
+    params = f.params
+    loop = None
+    for h in g.nodes:
+        if h.kind == 'for' and isinstance(h.ast.iter, ast.Name) and \
+                h.ast.iter.id == params[0] and \
+                isinstance(h.ast.target, ast.Name) and not h.loops:
+            loop = h
+    if loop is None:
+        raise AnalysisError('UNRECOGNISED-IDIOM %s: no loop over %r'
+                            % (f.where, params[0]))
+    slot = loop.ast.target.id
+    smap = I.stmt_node_map(g)
+    limp = f.module.local_imports(f.node)
+    # the converted slot: argument of <result>.append(..) which is not the
+    # input slot itself
+    sink = None
+    for c in calls_in(loop.ast):
+        if isinstance(c.func, ast.Attribute) and c.func.attr == 'append' and \
+                len(c.args) == 1 and isinstance(c.args[0], ast.Name) and \
+                c.args[0].id != slot and smap.get(id(c)) is not None and \
+                loop.id in smap[id(c)].loops[-1:]:
+            for n in walk(loop.ast):
+                if isinstance(n, ast.Assign) and len(n.targets) == 1 and \
+                        isinstance(n.targets[0], ast.Name) and \
+                        n.targets[0].id == c.args[0].id:
+                    sink = n
+    if sink is None:
+        raise AnalysisError('UNRECOGNISED-IDIOM %s: the converted slot is not '
+                            'built by an assignment and appended' % f.where)
+    table = {}
+    v = sink.value
+    if isinstance(v, ast.Dict):
+        keys = dict_keys(prog, f.module, None, v)
+        if keys is None:
+            raise AnalysisError('UNRECOGNISED-IDIOM %s: computed key'
+                                % f.where)
+        table = dict(zip(keys, v.values))
+    elif isinstance(v, ast.Call):
+        r = prog.resolve(f.module, v.func, limp)
+        if not (r and r[0] == 'class' and r[1] is prog.cls(RC, 'Slot')):
+            raise AnalysisError('UNRECOGNISED-IDIOM %s: `%s` does not build a '
+                                'Slot' % (f.where, short(v, 40)))
+        if v.args:
+            raise AnalysisError('UNRECOGNISED-IDIOM %s: Slot(...) with '
+                                'positional arguments' % f.where)
+        table = {k.arg: k.value for k in v.keywords if k.arg}
+    else:
+        raise AnalysisError('UNRECOGNISED-IDIOM %s: converted slot is `%s`'
+                            % (f.where, short(v, 40)))
+    sink_node = smap[id(sink)]
+    # discriminator: keys of the input slot read by the tests which decide
+    # whether the slot is converted at all (control dependence of the sink)
+    from ..flow import guard_atoms
+    disc = set()
+    for atom, pol in guard_atoms(g, sink_node.id,
+                                 within=g.loop_body[loop.id]):
+        disc |= _slot_reads(atom, slot)
+    # path-sensitive provenance up to the sink
+    start, stop, stop_edge = loop_slice(g, loop.id)
+
+    def transfer(node, edge, st):
+        if edge.label == 'exc':
+            return st
+        env = dict(st)
+        a = node.ast
+        if node.kind == 'for' and edge.label == 'iter':
+            p = _prov(a.iter, env, slot)
+            for nm in stores_in_target(a.target):
+                env[nm] = p
+        elif node.kind == 'stmt' and isinstance(a, ast.Assign):
+            p = _prov(a.value, env, slot)
+            for t in a.targets:
+                for e in I._flat(t):
+                    if isinstance(e, ast.Name):
+                        env[e.id] = p
+                    else:
+                        r = root_name(e)
+                        if r:
+                            env[r] = frozenset(env.get(r, ())) | p
+        elif node.kind == 'stmt' and isinstance(a, ast.AugAssign):
+            r = root_name(a.target)
+            if r:
+                env[r] = frozenset(env.get(r, ())) | _prov(a.value, env, slot)
+        elif node.kind == 'stmt' and isinstance(a, ast.Expr):
+            for c in calls_in(a):
+                if isinstance(c.func, ast.Attribute) and \
+                        c.func.attr in ('append', 'extend', 'insert', 'add'):
+                    r = root_name(c.func.value)
+                    if r:
+                        p = frozenset()
+                        for x in c.args:
+                            p |= _prov(x, env, slot)
+                        env[r] = frozenset(env.get(r, ())) | p
+        return frozenset(env.items())
+
+    ex = Exploration(g, start, frozenset(), transfer,
+                     stop=lambda nid: nid == sink_node.id or stop(nid),
+                     stop_edge=stop_edge)
+    envs = [dict(t.state) for t in ex.terminals if t.node == sink_node.id]
+    if not envs:
+        raise AnalysisError('%s: the conversion is unreachable' % f.where)
+    return slot, table, sink, envs, disc, ex.states
+
+
+def r19_5(prog, rep, rid='R19.5'):
+    rep.rule(rid, 'both slot converters carry every key of Slot._schema '
+             '(except the version discriminator) from the same key of the '
+             'input slot; every RO built carries index and occupation',
+             minimum=13)
+    slot_cls = prog.cls(RC, 'Slot')
+    ro_cls   = prog.cls(RC, 'RO')
+    schema   = class_table_keys(prog, slot_cls, '_schema')
+    ro_keys  = class_table_keys(prog, ro_cls, '_schema')
+    for fname in ('convert_slots_to_new', 'convert_slots_to_old'):
+        f = prog.function(MISC, fname)
+        rep.saw(f)
+        slot, table, sink, envs, disc, nstates = converter_facts(prog, f)
+        rep.stat('paths', nstates)
+        keys = [k for k in schema if k not in disc]
+        if len(keys) < 6:
+            raise AnalysisError('%s: %s: only keys %s of Slot._schema are left '
+                                'to check' % (rid, f.where, keys))
+        for k in keys:
+            if k not in table:
+                rep.bad(rid, f, 'dropped:%s' % k,
+                        '%s builds the converted slot without %r (a key of '
+                        'Slot._schema): the value of the input slot is lost'
+                        % (fname, k), f.loc(sink),
+                        history='a slot with %s=V: the converted slot has the '
+                        'default / no %s' % (k, k))
+                continue
+            provs = [_prov(table[k], env, slot) for env in envs]
+            foreign = [p for p in provs if p and k not in p]
+            carried = any(k in p for p in provs)
+            rep.check(carried and not foreign, rid, f,
+                      '%s: %r of the converted slot comes from %r of the '
+                      'input slot' % (fname, k, k), construct='key:%s' % k,
+                      message='%s: %r of the converted slot is computed from '
+                      '%s of the input slot%s' % (
+                          fname, k, sorted(foreign[0]) if foreign
+                          else 'nothing', '' if foreign else
+                          ' (never from its %r)' % k),
+                      loc=f.loc(table[k]),
+                      history='a slot whose %s differs from its %s: the '
+                      'converted slot has the wrong %s' % (
+                          k, '/'.join(sorted(foreign[0])) if foreign
+                          else 'default', k))
+        # RO(...) calls of the converter and of the module helpers it calls
+        funcs, ros = converter_funcs(prog, f), []
+        for fn in funcs:
+            limp = scope_imports(fn)
+            for c in calls_in(fn.node):
+                r = prog.resolve(fn.module, c.func, limp)
+                if r and r[0] == 'class' and r[1] is ro_cls:
+                    ros.append((fn, c))
+        if fname == 'convert_slots_to_new':
+            if not ros:
+                raise AnalysisError('UNRECOGNISED-IDIOM %s builds no RO'
+                                    % f.where)
+            bad = [(fn, c) for fn, c in ros if not c.args and
+                   not set(ro_keys) <= {k.arg for k in c.keywords}]
+            rep.check(not bad, rid, f,
+                      'all %d RO(...) built by %s set %s' % (len(ros), fname,
+                                                             ro_keys),
+                      construct=bad[0][1] if bad else 'RO',
+                      message='%s builds `%s` without %s: the index or the '
+                      'occupation of the resource is lost' % (
+                          bad[0][0].qual if bad else '',
+                          short(bad[0][1], 50) if bad else '',
+                          sorted(set(ro_keys) - {k.arg for k in
+                                                 bad[0][1].keywords})
+                          if bad else ''),
+                      loc=bad[0][0].loc(bad[0][1]) if bad else f.loc(),
+                      history='an old-format slot: the new slot names core 0 '
+                      '/ has no occupation')
+
+
+# ------------------------------------------------------------------------------
+# R19.10  which component of an input entry goes where (index / occupation)
+#
+_PLAIN_ITER_CALLS = {'list', 'tuple', 'sorted', 'reversed'}
+
+
+def _parents(root):
+    par = {}
+    for n in walk(root):
+        for c in ast.iter_child_nodes(n):
+            par[id(c)] = n
+    return par
+
+
+def _plain_view(e):
+    """the iterated expression is the input list itself (a name, an entry of
+    a mapping, an order preserving copy of those) - not enumerate / zip /
+    items / a generator, whose items are not entries of the input format"""
+    if isinstance(e, (ast.Name, ast.Subscript, ast.Attribute)):
+        return True
+    if isinstance(e, ast.Call):
+        if isinstance(e.func, ast.Name) and e.func.id in _PLAIN_ITER_CALLS \
+                and len(e.args) == 1:
+            return _plain_view(e.args[0])
+        if isinstance(e.func, ast.Attribute) and e.func.attr == 'get':
+            return True
+    return False
+
+
+def _binders(node, par):
+    """[(target, iterated expr, loop statement or None)] of the loops and
+    comprehension clauses enclosing `node`, innermost first"""
+    out, n = [], node
+    while id(n) in par:
+        up = par[id(n)]
+        if isinstance(up, (ast.ListComp, ast.SetComp, ast.GeneratorExp,
+                           ast.DictComp)) and not any(
+                               n is g for g in up.generators):
+            out += [(g.target, g.iter, None) for g in reversed(up.generators)]
+        elif isinstance(up, ast.For) and any(n is b for b in up.body):
+            out.append((up.target, up.iter, up))
+        n = up
+    return out
+
+
+def component_of(expr, node, par, depth=0):
+    """('pos', i) / ('key', k): which component of an entry of the iterated
+    input list the value of expr is; None if it is the entry as a whole or
+    anything else"""
+    if depth > 4:
+        return None
+    binders = _binders(node, par)
+
+    def entry(name):
+        """binder of a plain loop variable: ('elem',) / ('pos', i)"""
+        for tgt, it, loop in binders:
+            if isinstance(tgt, ast.Name) and tgt.id == name:
+                return ('elem',) if _plain_view(it) else ('other',)
+            if isinstance(tgt, (ast.Tuple, ast.List)):
+                for i, e in enumerate(tgt.elts):
+                    if isinstance(e, ast.Name) and e.id == name:
+                        return ('pos', i) if _plain_view(it) and not any(
+                            isinstance(x, ast.Starred) for x in tgt.elts) \
+                            else ('other',)
+        return None
+
+    if isinstance(expr, ast.Name):
+        b = entry(expr.id)
+        if b is not None:
+            return b if b[0] == 'pos' else None
+        # bound once in the body of an enclosing loop
+        for tgt, it, loop in binders:
+            if loop is None:
+                continue
+            defs = []
+            for st in walk_stmts(loop.body):
+                if isinstance(st, ast.Assign):
+                    for t in st.targets:
+                        if isinstance(t, ast.Name) and t.id == expr.id:
+                            defs.append((st, st.value, None))
+                        elif isinstance(t, (ast.Tuple, ast.List)):
+                            for i, e in enumerate(t.elts):
+                                if isinstance(e, ast.Name) and \
+                                        e.id == expr.id:
+                                    defs.append((st, st.value, i))
+            if len(defs) == 1:
+                st, val, i = defs[0]
+                if i is None:
+                    return component_of(val, st, par, depth + 1)
+                if isinstance(val, ast.Name) and entry(val.id) == ('elem',):
+                    return ('pos', i)
+                if isinstance(val, (ast.Tuple, ast.List)) and \
+                        i < len(val.elts):
+                    return component_of(val.elts[i], st, par, depth + 1)
+            if defs:
+                return None
+        return None
+    base, sel = None, None
+    if isinstance(expr, ast.Subscript) and isinstance(expr.slice, ast.Constant):
+        base, sel = expr.value, expr.slice.value
+    elif isinstance(expr, ast.Attribute):
+        base, sel = expr.value, expr.attr
+    elif isinstance(expr, ast.Call) and isinstance(expr.func, ast.Attribute) \
+            and expr.func.attr == 'get' and expr.args and \
+            isinstance(expr.args[0], ast.Constant):
+        base, sel = expr.func.value, expr.args[0].value
+    if isinstance(base, ast.Name) and entry(base.id) == ('elem',):
+        if isinstance(sel, bool):
+            return None
+        if isinstance(sel, int):
+            return ('pos', sel)
+        if isinstance(sel, str):
+            return ('key', sel)
+    return None
+
+
+def walk_stmts(stmts):
+    for s in stmts:
+        if isinstance(s, (ast.FunctionDef, ast.AsyncFunctionDef,
+                          ast.ClassDef)):
+            continue
+        yield s
+        for fld in ('body', 'orelse', 'finalbody'):
+            yield from walk_stmts(getattr(s, fld, []) or [])
+        for h in getattr(s, 'handlers', []) or []:
+            yield from walk_stmts(h.body)
+
+
+def r19_10(prog, rep, rid='R19.10'):
+    rep.rule(rid, 'where a slot converter takes an entry of the input apart, '
+             'each part goes where it belongs: RO(index=, occupation=) get '
+             'the part of that name (dict / RO entries) resp. of that position '
+             'in RO._schema order ((index, occupation) pairs); the old format '
+             'is built from the index', minimum=6)
+    ro_cls  = prog.cls(RC, 'RO')
+    ro_keys = class_table_keys(prog, ro_cls, '_schema')
+    # old -> new: RO(...) calls
+    f = prog.function(MISC, 'convert_slots_to_new')
+    for fn in converter_funcs(prog, f):
+        limp, par = scope_imports(fn), _parents(fn.node)
+        for c in calls_in(fn.node):
+            r = prog.resolve(fn.module, c.func, limp)
+            if not (r and r[0] == 'class' and r[1] is ro_cls) or c.args:
+                continue
+            sel = {k.arg: component_of(k.value, c, par)
+                   for k in c.keywords if k.arg in ro_keys}
+            sel = {k: v for k, v in sel.items() if v is not None}
+            if not sel:
+                continue
+            wrong = []
+            for k, (kind, x) in sorted(sel.items()):
+                want = k if kind == 'key' else ro_keys.index(k)
+                if x != want:
+                    wrong.append((k, kind, x, want))
+            pairs = any(kind == 'pos' for kind, x in sel.values())
+            rep.check(not wrong, rid, fn,
+                      '`%s`: %s' % (short(c, 40), ', '.join(
+                          '%s <- entry[%r]' % (k, v[1])
+                          for k, v in sorted(sel.items()))),
+                      construct='RO parts: %s' % ', '.join(
+                          '%s<-%r' % (k, x) for k, kind, x, want in wrong),
+                      message='%s builds `%s` with %s: %s' % (
+                          fn.qual, short(c, 50), '; '.join(
+                              '%s taken from part %r of the entry instead of '
+                              '%r' % (k, x, want)
+                              for k, kind, x, want in wrong),
+                          'an entry given as an (index, occupation) pair (the '
+                          'order of RO._schema, which the Slot._schema '
+                          'comment documents) comes out with index and '
+                          'occupation exchanged' if pairs else
+                          'an entry given as a dict / RO comes out with the '
+                          'wrong value under that name'),
+                      loc=fn.loc(c),
+                      history="convert_slots_to_new([{'cores': %s, 'gpus': "
+                      "[], 'lfs': 0, 'mem': 0, 'node_index': 0, 'node_name': "
+                      "'n'}]): the new slot names core 0.5 with occupation 3"
+                      % ('[(3, 0.5)]' if pairs else
+                         "[{'index': 3, 'occupation': 0.5}]"))
+    # new -> old: entries are reduced to their index
+    f = prog.function(MISC, 'convert_slots_to_old')
+    top = InputFlow(prog, f, f.params[0])
+
+    def over_slots(x, elt, par):
+        # the selector reads a SLOT of the input list (the variable of a loop /
+        # comprehension over the converter's input), not an entry of a slot
+        base = x.func.value if isinstance(x, ast.Call) and \
+            isinstance(x.func, ast.Attribute) else getattr(x, 'value', None)
+        if not isinstance(base, ast.Name):
+            return False
+        for tgt, it, loop in _binders(elt, par):
+            if base.id in stores_in_target(tgt):
+                return top._over_input(it)
+        return False
+
+    for fn in converter_funcs(prog, f):
+        par = _parents(fn.node)
+        for n in walk(fn.node):
+            # the element of a comprehension, or of `<list>.append(..)` in a
+            # loop over the entries
+            if isinstance(n, (ast.ListComp, ast.GeneratorExp)):
+                elt = n.elt
+            elif isinstance(n, ast.Call) and isinstance(n.func, ast.Attribute) \
+                    and n.func.attr == 'append' and len(n.args) == 1:
+                elt = n.args[0]
+            else:
+                continue
+            keys = []
+            for x in walk(elt):
+                sel = component_of(x, elt, par) if isinstance(
+                    x, (ast.Subscript, ast.Attribute, ast.Call)) else None
+                if sel and sel[0] == 'key' and not (
+                        fn is f and over_slots(x, elt, par)):
+                    keys.append(sel[1])
+            if not keys:
+                continue
+            rep.check(ro_keys[0] in keys, rid, fn,
+                      '`%s` keeps the %s of each entry' % (short(n, 40),
+                                                           ro_keys[0]),
+                      construct='old entry from %s' % sorted(set(keys)),
+                      message='%s reduces each entry of the new slot to `%s` '
+                      '(%s): the old format lists core / GPU indices, the '
+                      '%s of the entry is lost' % (
+                          fn.qual, short(elt, 40), sorted(set(keys)),
+                          ro_keys[0]), loc=fn.loc(n),
+                      history='convert_slots_to_old([Slot(cores=[RO(index=3, '
+                      'occupation=0.5)], ..)]) gives cores [[0.5]] instead '
+                      'of [[3]]')
+
+
+# ------------------------------------------------------------------------------
+# R19.7  what a typed-dict constructor normalises is what the base
+#        constructor receives (definition must reach the use; aliasing)
+#
+COPY_FUNCS = {'dict', 'copy.copy', 'copy.deepcopy', 'copy', 'deepcopy',
+              'ru.as_dict', 'as_dict'}
+NORMALISERS = ((RC, 'Slot'), (RC, 'Node'))
+
+
+class MapState:
+    """per-path facts about the mapping objects of a constructor.
+    env   : local name -> token of the object it refers to
+    norm  : (token, key) - the entry `key` of that object holds a value the
+            constructor stored (a copy inherits the entries of its source)
+    events: (token, key) - the stores themselves
+    roots : token -> tokens of the caller's objects it was copied from"""
+
+    def __init__(self, env=(), norm=(), events=(), roots=()):
+        self.env, self.norm = dict(env), set(norm)
+        self.events, self.roots = set(events), dict(roots)
+
+    def freeze(self):
+        return (frozenset(self.env.items()), frozenset(self.norm),
+                frozenset(self.events), frozenset(self.roots.items()))
+
+    @classmethod
+    def thaw(cls, fz):
+        return cls(*fz)
+
+
+def _map_key(sl):
+    if isinstance(sl, ast.Constant) and isinstance(sl.value, str):
+        return sl.value
+    return '$' + unparse(sl)
+
+
+def _bind(callee, call):
+    a = callee.node.args
+    pos = [x.arg for x in a.posonlyargs + a.args]
+    static = any(isinstance(d, ast.Name) and d.id == 'staticmethod'
+                 for d in callee.node.decorator_list)
+    if callee.cls is not None and not static and pos and \
+            isinstance(call.func, ast.Attribute):
+        pos = pos[1:]
+    out = {}
+    for p, v in zip(pos, call.args):
+        if isinstance(v, ast.Starred):
+            break
+        out[p] = v
+    names = set(pos) | {x.arg for x in a.kwonlyargs}
+    for k in call.keywords:
+        if k.arg in names:
+            out[k.arg] = k.value
+    return out
+
+
+def _param_item_stores(callee, param):
+    """keys of `<param>[key] = ..` / `<param>.update(key=..)` in callee"""
+    out = set()
+    for kind, target, stmt in I.stores(callee.node):
+        if kind in ('assign', 'aug') and isinstance(target, ast.Subscript) \
+                and isinstance(target.value, ast.Name) and \
+                target.value.id == param:
+            out.add(_map_key(target.slice))
+    for c in calls_in(callee.node):
+        if call_name(c) == param + '.update':
+            out |= {k.arg for k in c.keywords if k.arg}
+            for a in c.args:
+                if isinstance(a, ast.Dict):
+                    out |= {_map_key(k) for k in a.keys if k is not None}
+    return out
+
+
+class CtorMaps:
+    """symbolic run of a constructor up to its super().__init__ call"""
+
+    def __init__(self, prog, f):
+        self.prog, self.f = prog, f
+        self.g = cfg_of(f)
+        self.smap = I.stmt_node_map(self.g)
+        self.supers = [c for c in calls_in(f.node)
+                       if call_name(c) == 'super().__init__' and
+                       self.smap.get(id(c)) is not None]
+        self.super_nodes = {self.smap[id(c)].id: c for c in self.supers}
+        # `x = a or b` over mapping names: one run per choice
+        self.choices = []
+        self.unknown = {}
+
+    # -- values ---------------------------------------------------------------
+    def value(self, expr, st, nid, pick):
+        """token of the object expr evaluates to (new tokens are entered into
+        st.roots / st.norm)"""
+        if isinstance(expr, ast.Name):
+            return st.env.get(expr.id, 'g:' + expr.id)
+        if isinstance(expr, ast.BoolOp) and isinstance(expr.op, ast.Or) and \
+                all(isinstance(v, ast.Name) for v in expr.values):
+            i = pick.get(id(expr))
+            if i is None:
+                raise _NeedChoice(expr)
+            return self.value(expr.values[i], st, nid, pick)
+        srcs = None
+        if isinstance(expr, ast.Call):
+            cn = call_name(expr)
+            if cn in COPY_FUNCS:
+                srcs = [a for a in expr.args] + \
+                    [k.value for k in expr.keywords if k.arg is None]
+                if any(k.arg is not None for k in expr.keywords) and \
+                        cn != 'dict':
+                    srcs = None
+            elif isinstance(expr.func, ast.Attribute) and \
+                    expr.func.attr in ('copy', 'as_dict') and \
+                    not expr.args and not expr.keywords:
+                srcs = [expr.func.value]
+        elif isinstance(expr, ast.Dict) and any(k is None for k in expr.keys):
+            srcs = [v for k, v in zip(expr.keys, expr.values) if k is None]
+        if srcs is not None and all(isinstance(x, ast.Name) for x in srcs):
+            toks = [self.value(x, st, nid, pick) for x in srcs]
+            if toks:
+                t = 'c:%d:%s' % (nid, '+'.join(toks))
+                roots = set()
+                for x in toks:
+                    roots |= set(st.roots.get(x, (x,)))
+                    st.norm |= {(t, k) for tk, k in list(st.norm) if tk == x}
+                st.roots[t] = tuple(sorted(roots))
+                if any(x.startswith('u:') for x in toks):
+                    t = 'u:%d' % nid
+                return t
+        mentions = [n.id for n in walk(expr) if isinstance(n, ast.Name) and
+                    not st.env.get(n.id, 'n:').startswith('n:')]
+        return ('u:%d' if mentions else 'n:%d') % nid
+
+    def store(self, st, tok, key):
+        st.norm.add((tok, key))
+        st.events.add((tok, key))
+
+    # -- one statement --------------------------------------------------------
+    def transfer_for(self, pick):
+        def transfer(node, edge, fz):
+            if edge.label == 'exc':
+                return fz
+            st = MapState.thaw(fz)
+            a = node.ast
+            if node.kind == 'for' and edge.label == 'iter':
+                for nm in stores_in_target(a.target):
+                    st.env[nm] = 'n:%d' % node.id
+                return st.freeze()
+            if node.kind == 'with':
+                for it in a.items:
+                    if it.optional_vars is not None:
+                        for nm in stores_in_target(it.optional_vars):
+                            st.env[nm] = 'n:%d' % node.id
+                return st.freeze()
+            if node.kind != 'stmt':
+                return fz
+            # helpers which get a mapping and store into it
+            for c in calls_in(a):
+                if c in self.supers:
+                    continue
+                callee = self.prog.resolve_call(self.f, c)
+                if callee is None:
+                    continue
+                for p, v in _bind(callee, c).items():
+                    if isinstance(v, ast.Name) and v.id in st.env:
+                        for k in _param_item_stores(callee, p):
+                            self.store(st, st.env[v.id], k)
+            for c in calls_in(a):
+                if call_name(c).endswith('.update') and \
+                        isinstance(c.func, ast.Attribute) and \
+                        isinstance(c.func.value, ast.Name) and \
+                        c.func.value.id in st.env and \
+                        self.prog.resolve_call(self.f, c) is None:
+                    tok = st.env[c.func.value.id]
+                    for k in c.keywords:
+                        if k.arg:
+                            self.store(st, tok, k.arg)
+                    for x in c.args:
+                        if isinstance(x, ast.Dict):
+                            for k in x.keys:
+                                if k is not None:
+                                    self.store(st, tok, _map_key(k))
+            if isinstance(a, (ast.Assign, ast.AnnAssign, ast.AugAssign)):
+                targets = a.targets if isinstance(a, ast.Assign) else \
+                    [a.target]
+                val = None
+                for t in targets:
+                    for e in I._flat(t):
+                        if isinstance(e, ast.Subscript) and \
+                                isinstance(e.value, ast.Name) and \
+                                e.value.id in st.env:
+                            self.store(st, st.env[e.value.id],
+                                       _map_key(e.slice))
+                for t in targets:
+                    if isinstance(t, ast.Name):
+                        if isinstance(a, ast.AugAssign) or a.value is None:
+                            st.env[t.id] = 'u:%d' % node.id
+                            continue
+                        if val is None:
+                            val = self.value(a.value, st, node.id, pick)
+                        st.env[t.id] = val
+                    elif isinstance(t, (ast.Tuple, ast.List)):
+                        for nm in stores_in_target(t):
+                            st.env[nm] = 'u:%d' % node.id
+            return st.freeze()
+        return transfer
+
+    # -- which entries are present (R19.11) -----------------------------------
+    def _entry_read(self, e, env):
+        """key K if e is <mapping>.get(K) / <mapping>[K] for a local name
+        which refers to an input mapping (or a copy of one)"""
+        m, k = None, None
+        if isinstance(e, ast.Call) and isinstance(e.func, ast.Attribute) and \
+                e.func.attr == 'get' and e.args:
+            m, k = e.func.value, e.args[0]
+        elif isinstance(e, ast.Subscript):
+            m, k = e.value, e.slice
+        if isinstance(m, ast.Name) and env.get(m.id, 'u:')[:2] in ('p:', 'c:'):
+            if isinstance(k, ast.Constant) and isinstance(k.value, str):
+                return k.value
+            v = self.prog.fold(self.f.module, k, self.f.cls) \
+                if k is not None else UNKNOWN
+            if isinstance(v, str):
+                return v
+        return None
+
+    def presence_step(self, node, edge, x, env):
+        """x = (names holding an entry of the input, assumptions made on the
+        path about entries being set); None if the edge contradicts them"""
+        ent, assume = dict(x[0]), dict(x[1])
+        a = node.ast
+        if node.kind == 'stmt' and isinstance(a, (ast.Assign, ast.AugAssign,
+                                                  ast.AnnAssign)):
+            targets = a.targets if isinstance(a, ast.Assign) else [a.target]
+            for t in targets:
+                for nm in stores_in_target(t):
+                    ent.pop(nm, None)
+            if isinstance(a, ast.Assign) and len(targets) == 1 and \
+                    isinstance(targets[0], ast.Name):
+                k = self._entry_read(a.value, env)
+                if k is not None:
+                    ent[targets[0].id] = k
+        elif node.kind in ('for', 'with') and a is not None:
+            tg = [a.target] if node.kind == 'for' else [
+                it.optional_vars for it in a.items if it.optional_vars]
+            for t in tg:
+                for nm in stores_in_target(t):
+                    ent.pop(nm, None)
+        elif node.kind == 'test' and edge.label in ('T', 'F'):
+            taken = edge.label == 'T'
+
+            def key_of(e):
+                if isinstance(e, ast.Name):
+                    return ent.get(e.id)
+                return self._entry_read(e, env)
+            k, implied = key_of(a), None
+            if k is not None:
+                implied = taken
+            elif isinstance(a, ast.Compare) and len(a.ops) == 1 and \
+                    isinstance(a.ops[0], (ast.Is, ast.IsNot)) and \
+                    isinstance(a.comparators[0], ast.Constant) and \
+                    a.comparators[0].value is None:
+                k = key_of(a.left)
+                # `x is None` holds: x is not set; it fails: nothing follows
+                # (an empty list is not None and not set either)
+                if k is not None and taken == isinstance(a.ops[0], ast.Is):
+                    implied = False
+            if k is not None and implied is not None:
+                if assume.get(k, implied) != implied:
+                    return None
+                assume[k] = implied
+        return (frozenset(ent.items()), frozenset(assume.items()))
+
+    def runs(self):
+        """[(super call, MapState at the call, literals of a witness path,
+        node id, choices, entries assumed set / not set on the path)]"""
+        params = [p for p in self.f.params if p != 'self']
+        init = MapState(env={p: 'p:' + p for p in params})
+        picks = [{}]
+        out = []
+        tried = 0
+        while picks:
+            pick = picks.pop()
+            tried += 1
+            if tried > 16:
+                raise AnalysisError('UNRECOGNISED-IDIOM %s: too many `a or b` '
+                                    'mapping choices' % self.f.where)
+            base = self.transfer_for(pick)
+
+            def transfer(node, edge, state):
+                fz, x = state
+                x2 = self.presence_step(node, edge, x, dict(fz[0])) \
+                    if edge.label != 'exc' else x
+                if x2 is None:
+                    return None
+                fz2 = base(node, edge, fz)
+                return None if fz2 is None else (fz2, x2)
+            try:
+                ex = Exploration(self.g, self.g.entry.id,
+                                 (init.freeze(), (frozenset(), frozenset())),
+                                 transfer,
+                                 stop=lambda nid: nid in self.super_nodes or
+                                 nid in (self.g.exit.id, self.g.raise_.id))
+            except _NeedChoice as e:
+                for i in range(len(e.expr.values)):
+                    p2 = dict(pick)
+                    p2[id(e.expr)] = i
+                    picks.append(p2)
+                continue
+            for t in ex.terminals:
+                if t.node in self.super_nodes:
+                    out.append((self.super_nodes[t.node], MapState.thaw(
+                        t.state[0]), ex.literals(t), t.node, pick,
+                        dict(t.state[1][1])))
+        return out
+
+
+# ------------------------------------------------------------------------------
+# R19.12  a slot converter hands the input list back unconverted only when a
+#         test on the WHOLE list says so (the format is decided per slot)
+#
+def _is_input(e, al):
+    """the expression is the input list itself or a shallow copy of it"""
+    if isinstance(e, ast.Name):
+        return e.id in al
+    if isinstance(e, ast.Call) and len(e.args) == 1 and not e.keywords:
+        fn = dotted(e.func) or ''
+        if fn in ('list', 'tuple', 'copy.copy', 'copy'):
+            return _is_input(e.args[0], al)
+    if isinstance(e, ast.Call) and not e.args and not e.keywords and \
+            isinstance(e.func, ast.Attribute) and e.func.attr == 'copy':
+        return _is_input(e.func.value, al)
+    if isinstance(e, ast.Subscript) and isinstance(e.slice, ast.Slice) and \
+            e.slice.lower is None and e.slice.upper is None and \
+            e.slice.step is None:
+        return _is_input(e.value, al)
+    return False
+
+
+def _own_nodes(fnode):
+    """ast nodes of the function without those of nested functions"""
+    todo = list(ast.iter_child_nodes(fnode))
+    while todo:
+        n = todo.pop()
+        yield n
+        if not isinstance(n, (ast.FunctionDef, ast.AsyncFunctionDef,
+                              ast.Lambda)):
+            todo.extend(ast.iter_child_nodes(n))
+
+
+class InputFlow:
+    """names which stand for the input list of a function (flow insensitive)
+    and the single elements of that list an expression depends on"""
+
+    def __init__(self, prog, f, param):
+        self.prog, self.f, self.param = prog, f, param
+        self.defs, self.loops = {}, {}
+        for n in _own_nodes(f.node):
+            if isinstance(n, ast.Assign) and len(n.targets) == 1 and \
+                    isinstance(n.targets[0], ast.Name):
+                self.defs.setdefault(n.targets[0].id, []).append(n.value)
+            elif isinstance(n, ast.For):
+                for nm in stores_in_target(n.target):
+                    self.loops.setdefault(nm, []).append(n)
+        self.al = {param}
+        while True:
+            more = {nm for nm, vs in self.defs.items() if nm not in self.al
+                    and any(_is_input(v, self.al) for v in vs)}
+            if not more:
+                break
+            self.al |= more
+
+    def _over_input(self, it):
+        """the loop runs over the input list (plain, enumerate, reversed..)"""
+        if _is_input(it, self.al):
+            return True
+        if isinstance(it, ast.Call) and it.args and \
+                (dotted(it.func) or '') in ('enumerate', 'reversed', 'sorted',
+                                            'iter'):
+            return self._over_input(it.args[0])
+        return False
+
+    def elements(self, expr, in_loops=(), _seen=None, _depth=0):
+        """[text]: the single elements of the input `expr` depends on: an
+        element picked by a constant index / next(iter(..)), the variable of
+        a loop over the input when that loop is one of `in_loops` (ast.For
+        nodes), and what a module function computes from such an element"""
+        seen = set() if _seen is None else _seen
+        out = []
+        bound = set()
+        for n in walk(expr):
+            if isinstance(n, ast.comprehension):
+                bound |= set(stores_in_target(n.target))
+        for n in walk(expr):
+            if isinstance(n, ast.Subscript) and _is_input(n.value, self.al) \
+                    and not isinstance(n.slice, ast.Slice):
+                i = n.slice
+                if isinstance(i, ast.UnaryOp) and isinstance(i.op, ast.USub):
+                    i = i.operand
+                if isinstance(i, ast.Constant) and isinstance(i.value, int):
+                    out.append('`%s`' % short(n, 40))
+                elif any(isinstance(x, ast.Name) and any(
+                        lp in in_loops for lp in self.loops.get(x.id, []))
+                        for x in walk(n.slice)):
+                    out.append('`%s`' % short(n, 40))
+            elif isinstance(n, ast.Call) and dotted(n.func) == 'next' and \
+                    n.args and self._over_input(n.args[0]):
+                out.append('`%s`' % short(n, 40))
+            elif isinstance(n, ast.Call) and _depth < 2:
+                out += self._through_call(n, _depth)
+            if isinstance(n, ast.Name) and isinstance(n.ctx, ast.Load) and \
+                    n.id not in self.al and n.id not in bound and \
+                    n.id not in seen:
+                seen.add(n.id)
+                for lp in self.loops.get(n.id, []):
+                    if lp in in_loops and self._over_input(lp.iter):
+                        out.append('`%s` (one element of the loop over `%s`)'
+                                   % (n.id, short(lp.iter, 30)))
+                for v in self.defs.get(n.id, []):
+                    out += self.elements(v, in_loops, seen, _depth)
+        return out
+
+    def _through_call(self, call, depth):
+        """a module level / nested function which gets the input list and
+        whose result depends on a single element of it"""
+        hit = [i for i, a in enumerate(call.args) if _is_input(a, self.al)]
+        kws = [k.arg for k in call.keywords
+               if k.arg and _is_input(k.value, self.al)]
+        if not hit and not kws:
+            return []
+        callee = self.prog.resolve_call(self.f, call)
+        if callee is None or callee.cls is not None:
+            return []
+        params = list(callee.params)
+        names = [params[i] for i in hit if i < len(params)] + \
+                [k for k in kws if k in params]
+        out = []
+        for nm in names:
+            sub = InputFlow(self.prog, callee, nm)
+            g = cfg_of(callee)
+            for node in g.nodes:
+                if node.kind != 'stmt' or not isinstance(node.ast, ast.Return):
+                    continue
+                exprs = [node.ast.value] if node.ast.value is not None else []
+                exprs += [t.ast for t in _controls(g, node.id)]
+                for e in exprs:
+                    for el in sub.elements(e, (), None, depth + 1):
+                        out.append('%s in %s()' % (el, callee.name))
+        return out
+
+
+def _controls(g, target):
+    """test nodes the target is control dependent on: the target is reachable
+    from the test, but not from one of its branches (without coming back to
+    the test)"""
+    out = []
+    for n in g.nodes:
+        if n.kind != 'test':
+            continue
+        reach = [target in g.reachable(e.dst, skip_nodes={n.id})
+                 for e in g.succ[n.id] if e.label in ('T', 'F')]
+        if any(reach) and not all(reach):
+            out.append(n)
+    return out
+
+
+def _single_slot_list(atom, pol, al):
+    """the guard says that the list has one element"""
+    if not isinstance(atom, ast.Compare) or len(atom.ops) != 1:
+        return False
+    l, op, r = atom.left, atom.ops[0], atom.comparators[0]
+    if not (isinstance(l, ast.Call) and dotted(l.func) == 'len' and
+            len(l.args) == 1 and _is_input(l.args[0], al) and
+            isinstance(r, ast.Constant)):
+        return False
+    return (isinstance(op, ast.Eq) and r.value == 1 and pol) or \
+           (isinstance(op, ast.NotEq) and r.value == 1 and not pol) or \
+           (isinstance(op, ast.Lt) and r.value == 2 and pol) or \
+           (isinstance(op, ast.LtE) and r.value == 1 and pol) or \
+           (isinstance(op, ast.Gt) and r.value == 1 and not pol) or \
+           (isinstance(op, ast.GtE) and r.value == 2 and not pol)
+
+
+def r19_12(prog, rep, rid='R19.12'):
+    from ..flow import guard_atoms
+    rep.rule(rid, 'a slot converter hands its input list back unconverted '
+             'only under tests on the whole list: the format is decided slot '
+             'by slot, a test on one slot does not decide for the others',
+             minimum=2)
+    for fname in ('convert_slots_to_new', 'convert_slots_to_old'):
+        f = prog.function(MISC, fname)
+        rep.saw(f)
+        g = cfg_of(f)
+        flow = InputFlow(prog, f, f.params[0])
+        returned = set()
+        for n in g.nodes:
+            if n.kind == 'stmt' and isinstance(n.ast, ast.Return) and \
+                    isinstance(n.ast.value, ast.Name):
+                returned.add(n.ast.value.id)
+        events = []
+        for n in g.nodes:
+            if n.kind != 'stmt':
+                continue
+            if isinstance(n.ast, ast.Return) and n.ast.value is not None \
+                    and _is_input(n.ast.value, flow.al):
+                events.append(n)
+            elif isinstance(n.ast, ast.Assign) and \
+                    _is_input(n.ast.value, flow.al) and any(
+                        isinstance(t, ast.Name) and t.id in returned and
+                        t.id != flow.param for t in n.ast.targets):
+                events.append(n)
+        bad = 0
+        for ev in events:
+            if any(_single_slot_list(a, pol, flow.al)
+                   for a, pol in guard_atoms(g, ev.id)):
+                continue
+            in_loops = tuple(g.loop_ast[h] for h in ev.loops
+                             if isinstance(g.loop_ast.get(h), ast.For))
+            for t in _controls(g, ev.id):
+                els = flow.elements(t.ast, in_loops)
+                if not els:
+                    continue
+                bad += 1
+                rep.bad(rid, f, 'one-element test before `%s`'
+                        % short(ev.ast, 40),
+                        '%s: `%s` hands the input list back as it is, and '
+                        'whether it is reached depends on the test `%s` which '
+                        'looks at %s only; the other slots of the list may be '
+                        'in the other format (the converter itself decides '
+                        'the format slot by slot) and stay unconverted'
+                        % (fname, short(ev.ast, 40), short(t.ast, 50),
+                           ', '.join(sorted(set(els)))), f.loc(t.ast),
+                        history='%s([A, B]) where A already has the target '
+                        'format and B does not: the test looks at A, the list '
+                        'comes back unchanged and B reaches the consumer in '
+                        'the wrong format (jsrun indexes slot[\'cores\'] as '
+                        'list of lists; Node.allocate_slot reads ro.index)'
+                        % fname)
+                break
+        if not bad:
+            rep.ok(rid, f, '%s: %d exit(s) hand the input list back, each '
+                   'decided by tests on the whole list' % (fname, len(events)),
+                   f.loc())
+
+
+# ------------------------------------------------------------------------------
+# R19.13  a handler which retries the guarded primitive another way (fallback)
+#         catches at least what the handler around the retry gives up on
+#
+def _exc_chain(prog, fn, expr):
+    """names of the exception class `expr` and of its bases (builtins by name,
+    classes of the pickle module as pickle.X, package classes by `where`);
+    None if the class is not known"""
+    import builtins
+    import pickle as _pickle
+
+    def of_type(k):
+        return [q.__name__ if q.__module__ == 'builtins'
+                else 'pickle.' + q.__name__
+                for q in k.__mro__ if q is not object]
+    nm = dotted(expr)
+    b = getattr(builtins, nm, None) if nm and '.' not in nm else None
+    r = prog.resolve(fn.module, expr, scope_imports(fn))
+    if r is None and isinstance(b, type) and issubclass(b, BaseException):
+        return of_type(b)
+    if r and r[0] == 'ext' and r[1].startswith('pickle.'):
+        k = getattr(_pickle, r[1][len('pickle.'):], None)
+        if isinstance(k, type) and issubclass(k, BaseException):
+            return of_type(k)
+    if r and r[0] == 'class':
+        out = []
+        for k in prog.mro(r[1]):
+            out.append(k.where)
+            for bx in k.node.bases:
+                sub = _exc_chain(prog, fn, bx)
+                if sub and prog.resolve(k.module, bx) is None:
+                    out += sub
+        return out
+    return None
+
+
+def _handler_types(h):
+    if h.type is None:
+        return [None]
+    return list(h.type.elts) if isinstance(h.type, ast.Tuple) else [h.type]
+
+
+def _ext_calls(prog, fn, stmts):
+    """[(call, external dotted name)] in the statements (nested functions
+    excluded)"""
+    out = []
+    limp = scope_imports(fn)
+    for st in stmts:
+        for c in [st] + list(_own_nodes(st)):
+            if isinstance(c, ast.Call) and dotted(c.func):
+                r = prog.resolve(fn.module, c.func, limp)
+                if r and r[0] == 'ext':
+                    out.append((c, r[1]))
+    return out
+
+
+def _enclosing_try(stmts, call):
+    """innermost try below `stmts` whose BODY holds the call (None: the call
+    is not guarded there)"""
+    found = []
+
+    def rec(node, cur):
+        if node is call:
+            found.append(cur)
+            return
+        if isinstance(node, (ast.FunctionDef, ast.AsyncFunctionDef,
+                             ast.Lambda)):
+            return
+        if isinstance(node, ast.Try):
+            for b in node.body:
+                rec(b, node)
+            for part in (node.handlers, node.orelse, node.finalbody):
+                for b in part:
+                    rec(b, cur)
+            return
+        for c in ast.iter_child_nodes(node):
+            rec(c, cur)
+    for st in stmts:
+        rec(st, None)
+    return found[0] if found else None
+
+
+def _retries(prog, fn, handler, names, depth=0):
+    """[(external name, try around the retry | None)]: calls in the handler
+    (or in a module function it calls) of an external callee in `names`"""
+    out = []
+    for c, ext in _ext_calls(prog, fn, handler.body):
+        if ext in names:
+            out.append((ext, _enclosing_try(handler.body, c)))
+    if depth == 0:
+        for st in handler.body:
+            for c in [st] + list(_own_nodes(st)):
+                if not isinstance(c, ast.Call):
+                    continue
+                callee = prog.resolve_call(fn, c)
+                if callee is None or callee.cls is not None or \
+                        callee.module is not fn.module:
+                    continue
+                for c2, ext in _ext_calls(prog, callee, callee.node.body):
+                    if ext in names:
+                        out.append((ext, _enclosing_try(callee.node.body, c2)
+                                    or _enclosing_try(handler.body, c)))
+    return out
+
+
+def r19_13(prog, rep, rid='R19.13'):
+    rep.rule(rid, 'a handler of the serializer which tries the failed '
+             'primitive again another way (fallback) catches at least the '
+             'exceptions on which the handler around that retry gives up',
+             minimum=1)
+    ser = prog.module(SER)
+    for name, fn in sorted(ser.funcs.items()):
+        tries = [n for n in _own_nodes(fn.node) if isinstance(n, ast.Try)]
+        if not tries:
+            continue
+        rep.saw(fn)
+        found = 0
+        for t1 in tries:
+            names = {ext for c, ext in _ext_calls(prog, fn, t1.body)}
+            if not names:
+                continue
+            per = {}
+            for h in t1.handlers:
+                for ext, t2 in _retries(prog, fn, h, names):
+                    per.setdefault(ext, []).append((h, t2))
+            for ext, hs in sorted(per.items()):
+                found += 1
+                wide = [ty for h, t2 in hs for ty in _handler_types(h)]
+                heads = set()
+                for ty in wide:
+                    ch = ['BaseException'] if ty is None else \
+                        _exc_chain(prog, fn, ty)
+                    heads.add(ch[0] if ch else unparse(ty))
+                if heads & {'BaseException'}:
+                    heads.add('Exception')
+                missed = []
+                for h, t2 in hs:
+                    for h2 in (t2.handlers if t2 is not None else []):
+                        for ty in _handler_types(h2):
+                            if ty is None:
+                                ch = ['Exception']
+                            else:
+                                ch = _exc_chain(prog, fn, ty)
+                                if ch and ch[0] == 'BaseException':
+                                    ch = ['Exception']
+                            if ch is None:
+                                if unparse(ty) in heads or \
+                                        'Exception' in heads:
+                                    continue
+                                raise AnalysisError(
+                                    'UNRECOGNISED-IDIOM %s: exception class '
+                                    '`%s` is not known' % (fn.where,
+                                                           unparse(ty)))
+                            if not (heads & set(ch)):
+                                missed.append(ty)
+                first = hs[0][0]
+                rep.check(not missed, rid, fn,
+                          '%s: the handler which retries %s catches what the '
+                          'handler around the retry catches' % (name, ext),
+                          construct='fallback of %s' % ext,
+                          message='%s: `except %s` is the handler which tries '
+                          '%s again another way, but the handler around that '
+                          'second attempt gives up on `%s`: that is what this '
+                          'function regards as a failure of %s, and a first '
+                          'attempt failing with such an exception which is '
+                          'not %s leaves the function without the fallback '
+                          'being tried (dill reports an object it cannot '
+                          'pickle by value with TypeError, not PicklingError)'
+                          % (name, ', '.join(unparse(x) if x is not None
+                                             else '<all>' for x in wide) or
+                             '<all>', ext,
+                             ', '.join(sorted({unparse(x) if x is not None else
+                                               '<all>' for x in missed})),
+                             ext, ' / '.join(sorted(heads))),
+                          loc=fn.loc(first),
+                          history='PythonTask(obj) for a callable instance '
+                          'whose class holds something dill cannot copy by '
+                          'value (a running generator): dill.dumps(obj) raises '
+                          'TypeError, the by-reference attempt which would '
+                          'succeed is skipped and the encoder raises')
+        if not found:
+            rep.ok(rid, fn, '%s: no handler retries the guarded primitive'
+                   % name, fn.loc())
+
+
+# ------------------------------------------------------------------------------
+# R19.16  a payload file holds the payload of the last encoder call only
+#
+_OPEN_FUNCS = {'open', 'io.open', 'ru.ru_open', 'ru_open', 'codecs.open',
+               'gzip.open', 'bz2.open', 'lzma.open', 'os.fdopen'}
+_LOADERS    = {'dill.load', 'pickle.load'}
+
+
+def _all_funcs(module):
+    """every function of the module: top level, methods, nested ones"""
+    todo = list(module.funcs.values())
+    for c in module.classes.values():
+        todo += list(c.methods.values())
+    out = []
+    while todo:
+        f = todo.pop()
+        out.append(f)
+        todo += list(f.nested.values())
+    return sorted(out, key=lambda f: f.node.lineno)
+
+
+def _file_opens(prog, f):
+    """[(call, file expr, mode expr or None)] of the file opens in f itself"""
+    out = []
+    limp = scope_imports(f)
+    for c in _own_nodes(f.node):
+        if not isinstance(c, ast.Call):
+            continue
+        d = dotted(c.func)
+        r = prog.resolve(f.module, c.func, limp) if d else None
+        ext = r[1] if r and r[0] == 'ext' else None
+        if d in _OPEN_FUNCS or ext in _OPEN_FUNCS:
+            out.append((c, kwarg(c, 'file', 0), kwarg(c, 'mode', 1)))
+        elif isinstance(c.func, ast.Attribute) and c.func.attr == 'open':
+            if ext is not None or (r and r[0] == 'mod'):
+                continue                     # os.open, webbrowser.open, ...
+            b = prog.resolve(f.module, c.func.value, limp) \
+                if dotted(c.func.value) else None
+            if b and b[0] in ('ext', 'mod'):
+                continue
+            out.append((c, c.func.value, kwarg(c, 'mode', 0)))
+        elif isinstance(c.func, ast.Attribute) and \
+                c.func.attr in ('write_bytes', 'write_text'):
+            # pathlib: creates / truncates the file
+            out.append((c, c.func.value, ast.Constant(
+                value='wb' if c.func.attr == 'write_bytes' else 'w')))
+    return out
+
+
+def _param_default(f, name):
+    a = f.node.args
+    pos = a.posonlyargs + a.args
+    for p, d in zip(pos[len(pos) - len(a.defaults):], a.defaults):
+        if p.arg == name:
+            return d
+    for p, d in zip(a.kwonlyargs, a.kw_defaults):
+        if p.arg == name:
+            return d
+    return None
+
+
+def _mode_values(prog, f, e, depth=0):
+    """the constant strings a mode expression may hold - through locals,
+    module constants, conditional expressions, concatenation, a parameter
+    (default and what the callers inside the module pass) - or None"""
+    if e is None:
+        return {'r'}
+    if depth > 6:
+        return None
+
+    def union(xs):
+        out = set()
+        for x in xs:
+            v = _mode_values(prog, f, x, depth + 1) if not isinstance(x, set) \
+                else x
+            if v is None:
+                return None
+            out |= v
+        return out
+    if isinstance(e, ast.Constant):
+        return {e.value} if isinstance(e.value, str) else None
+    if isinstance(e, ast.IfExp):
+        return union([e.body, e.orelse])
+    if isinstance(e, ast.BoolOp):
+        return union(e.values)
+    if isinstance(e, ast.BinOp) and isinstance(e.op, ast.Add):
+        a = _mode_values(prog, f, e.left, depth + 1)
+        b = _mode_values(prog, f, e.right, depth + 1)
+        if a is None or b is None:
+            return None
+        return {x + y for x in a for y in b}
+    if isinstance(e, ast.Name):
+        h = f
+        while h is not None:
+            defs, opaque = [], False
+            for n in _own_nodes(h.node):
+                if isinstance(n, ast.Assign):
+                    for t in n.targets:
+                        if isinstance(t, ast.Name) and t.id == e.id:
+                            defs.append(n.value)
+                        elif e.id in stores_in_target(t):
+                            opaque = True
+                elif isinstance(n, (ast.AugAssign, ast.AnnAssign,
+                                    ast.NamedExpr)) and \
+                        isinstance(n.target, ast.Name) and n.target.id == e.id:
+                    if isinstance(n, ast.AugAssign) or n.value is None:
+                        opaque = True
+                    else:
+                        defs.append(n.value)
+                elif isinstance(n, ast.Name) and n.id == e.id and \
+                        isinstance(n.ctx, ast.Store) and not defs:
+                    pass
+            if opaque:
+                return None
+            vals = []
+            if e.id in h.params:
+                d = _param_default(h, e.id)
+                if d is not None:
+                    vals.append((h, d))
+                a = h.node.args
+                pos = [x.arg for x in a.posonlyargs + a.args]
+                meth = h.cls is not None and h.parent is None
+                for g in _all_funcs(h.module):
+                    for c in _own_nodes(g.node):
+                        if not isinstance(c, ast.Call):
+                            continue
+                        dn = dotted(c.func) or ''
+                        if dn != h.name and not dn.endswith('.' + h.name):
+                            continue
+                        if any(isinstance(x, ast.Starred) for x in c.args) or \
+                                any(k.arg is None for k in c.keywords):
+                            return None
+                        i = pos.index(e.id) if e.id in pos else None
+                        if i is not None and meth and '.' in dn:
+                            i -= 1
+                        v = kwarg(c, e.id, i if i is not None and i >= 0
+                                  else None)
+                        if v is not None:
+                            vals.append((g, v))
+                if not vals:
+                    return None
+            vals += [(h, d) for d in defs]
+            if vals:
+                out = set()
+                for g, x in vals:
+                    if isinstance(x, ast.Constant) and x.value is None:
+                        continue        # `mode=None` default: `mode or 'wb'`
+                    v = _mode_values(prog, g, x, depth + 1)
+                    if v is None:
+                        return None
+                    out |= v
+                return out
+            h = h.parent
+        v = fold_name(prog, f.module, e, f.cls)
+        return {v} if isinstance(v, str) else None
+    v = prog.fold(f.module, e, f.cls)
+    return {v} if isinstance(v, str) else None
+
+
+def _in_loop(f, node):
+    """node lies in a loop / comprehension of f"""
+    par = {}
+    for n in ast.walk(f.node):
+        for c in ast.iter_child_nodes(n):
+            par[id(c)] = n
+    n = par.get(id(node))
+    while n is not None and n is not f.node:
+        if isinstance(n, (ast.While, ast.For, ast.AsyncFor, ast.ListComp,
+                          ast.SetComp, ast.DictComp, ast.GeneratorExp)):
+            return True
+        n = par.get(id(n))
+    return False
+
+
+def r19_16(prog, rep, rid='R19.16'):
+    rep.rule(rid, 'a file which the serializer writes a payload to is opened '
+             'in a truncating mode: the reader takes ONE object from the start '
+             'of the file, so what an earlier call left under the same name '
+             '(the default name is one fixed path) must not be part of it',
+             minimum=1)
+    ser = prog.module(SER)
+    writers, readers, rkinds = [], [], set()
+    for f in _all_funcs(ser):
+        for c, name, mode in _file_opens(prog, f):
+            ms = _mode_values(prog, f, mode)
+            if ms is None:
+                raise AnalysisError(
+                    'UNRECOGNISED-IDIOM %s: cannot tell the mode of `%s`'
+                    % (f.where, short(c, 50)))
+            if any(set(m) & set('wax+') for m in ms):
+                writers.append((f, c, name, sorted(ms)))
+            else:
+                readers.append((f, c))
+                rkinds |= {'b' in m for m in ms}
+    # a file which no reader of the module could take an object from (a text
+    # file next to binary readers: a log, a trace) is not a payload file
+    for w in list(writers):
+        if rkinds and not ({'b' in m for m in w[3]} & rkinds):
+            writers.remove(w)
+            rep.ok(rid, w[0], '%s: `%s` (mode %s) is not a file the readers '
+                   'of the module read' % (w[0].qual, short(w[1], 40),
+                                           '/'.join(w[3])), w[0].loc(w[1]))
+    # what the readers of the module take from a file
+    limp_loads, streams = [], []
+    for f in _all_funcs(ser):
+        for c, ext in _ext_calls(prog, f, f.node.body):
+            if ext in _LOADERS:
+                limp_loads.append((f, c))
+                if _in_loop(f, c):
+                    streams.append((f, c))
+    for f, c, name, ms in writers:
+        rep.saw(f)
+        keeps = [m for m in ms if 'w' not in m]
+        what = short(name, 40) if name is not None else '?'
+        if keeps:
+            top = f
+            while top.parent is not None:
+                top = top.parent
+            for n in ast.walk(top.node):
+                if isinstance(n, ast.Call) and (dotted(n.func) or '').split(
+                        '.')[-1] in ('remove', 'unlink', 'truncate',
+                                     'ftruncate', 'replace', 'rename'):
+                    raise AnalysisError(
+                        'UNRECOGNISED-IDIOM %s: `%s` is opened with mode %r '
+                        'and the function removes / truncates / renames a '
+                        'file itself (`%s`)' % (f.where, what, keeps[0],
+                                                short(n, 40)))
+            if streams or not readers:
+                raise AnalysisError(
+                    'UNRECOGNISED-IDIOM %s: `%s` is opened with mode %r and '
+                    '%s' % (f.where, what, keeps[0],
+                            '%s reads objects in a loop' % streams[0][0].qual
+                            if streams else 'no function of the module reads '
+                            'a file'))
+        m = keeps[0] if keeps else ''
+        if 'a' in m:
+            effect = ('the payload is appended: the reader (%s) takes the '
+                      'first object of the file, which is the payload of the '
+                      'FIRST call - a stale function / stale arguments are '
+                      'decoded without any error'
+                      % ', '.join(sorted({g.qual for g, _ in readers})))
+            hist = ('%s(f1, name) then %s(f2, name) without the file being '
+                    'removed in between (the default name is one fixed path): '
+                    'the reader returns f1 for the second payload'
+                    % (f.qual, f.qual))
+        elif 'x' in m:
+            effect = ('the file is created exclusively: the second call for '
+                      'the same name (the default name is one fixed path) '
+                      'fails with FileExistsError')
+            hist = ('%s(f1) then %s(f2) with the default file name: the '
+                    'second payload is never written' % (f.qual, f.qual))
+        else:
+            effect = ('the file is neither created nor truncated: the first '
+                      'call for a name fails (no such file), and a payload '
+                      'shorter than the one before it leaves the old tail in '
+                      'the file')
+            hist = ('%s(f1, name) for a name which does not exist yet: the '
+                    'encoder raises, nothing is transported' % f.qual)
+        rep.check(not keeps, rid, f,
+                  '%s opens %s with mode %s: the file holds this payload only'
+                  % (f.qual, what, '/'.join(repr(x) for x in ms)),
+                  construct=c,
+                  message='%s opens `%s` with mode %r, which does not '
+                  'truncate the file: %s' % (f.qual, what, m, effect),
+                  loc=f.loc(c), history=hist)
+
+
 class _NeedChoice(Exception):
     def __init__(self, expr):
         self.expr = expr
@@ -4032,7 +6054,9 @@ def run(prog, rep, tier):
         'which provides the by-reference fallback is as broad as the '
         'handler which gives up on that fallback; an encoded function which '
         'an encoder keeps in a store across calls is keyed by the callable '
-        'itself; every as_dict() override of a typed dict class returns the '
+        'itself; every file the serializer writes a payload to is opened '
+        'truncating (the reader takes one object from the start); '
+        'every as_dict() override of a typed dict class returns the '
         'radical.utils conversion, or the raw data only where no schema '
         'below it holds typed dicts the guard does not exclude.')
     rep.undecided = ('equality of values after a round trip through '
@@ -4072,6 +6096,7 @@ def run(prog, rep, tier):
     r19_10(prog, rep)
     r19_12(prog, rep)
     r19_13(prog, rep)
+    r19_16(prog, rep)
     rep.attempt(r19_7, prog, rep)
     r19_15(prog, rep)
     if tier == 'thorough':
@@ -4750,4 +6775,54 @@ SILENT += [
         (_M, _M_DEEP, _M_DEEP + "\n    def as_dict(self, _annotate=False):\n\n        data = self._data\n        if not data:\n            return dict(data)\n\n        return super().as_dict(_annotate=_annotate)\n")]),
     dict(name='seed C19-i6 fast path on RaptorConfig only (plain values, no subclasses)', edits=[
         (RC, "        RAPTOR_HB_FREQUENCY: 1000,\n    }\n", "        RAPTOR_HB_FREQUENCY: 1000,\n    }\n\n    def as_dict(self, _annotate=False):\n\n        data = self._data\n        if not _annotate and \\\n           not any(isinstance(v, FastTypedDict) for v in data.values()):\n            return dict(data)\n\n        return super().as_dict(_annotate=_annotate)\n")]),
+]
+
+# round 7: R19.16 (j4)
+_S_OPENW = "        with open(fname, 'wb') as f:\n            f.write(serialize_obj(obj))\n"
+_S_FNAME = "    if not fname:\n        fname = _obj_file_path\n\n    try:\n        with open(fname, 'wb') as f:\n"
+_S_SFILE = "def serialize_file(obj, fname=None):\n"
+
+MUTATIONS += [
+    dict(name='R19.16 seed C19-j4: serialize_file opens the payload file for append', rules=('R19.16',), edits=[
+        (_S, "        with open(fname, 'wb') as f:", "        with open(fname, 'ab') as f:")]),
+    dict(name='R19.16 append mode given by keyword through a local', rules=('R19.16',), edits=[
+        (_S, _S_FNAME, "    if not fname:\n        fname = _obj_file_path\n\n    flags = 'a' + 'b'\n    try:\n        with open(file=fname, mode=flags) as f:\n")]),
+    dict(name='R19.16 payload file created exclusively (second payload fails)', rules=('R19.16',), edits=[
+        (_S, "        with open(fname, 'wb') as f:", "        with open(fname, 'xb') as f:")]),
+    dict(name='R19.16 payload file opened r+b (no file for the first payload)', rules=('R19.16',), edits=[
+        (_S, "        with open(fname, 'wb') as f:", "        with open(fname, 'r+b') as f:")]),
+    dict(name='R19.16 append only for the default file name (conditional expression, module constant)', rules=('R19.16',), edits=[
+        (_S, "_obj_file_path = os.path.join(_obj_dir, _obj_file_name)\n", "_obj_file_path = os.path.join(_obj_dir, _obj_file_name)\n_APPEND        = 'ab'\n"),
+        (_S, _S_FNAME, "    mode = 'wb' if fname else _APPEND\n    if not fname:\n        fname = _obj_file_path\n\n    try:\n        with open(fname, mode) as f:\n")]),
+    dict(name='R19.16 extracted writer helper, append mode passed by the caller', rules=('R19.16',), edits=[
+        (_S, _S_SFILE, "def _dump(fname, data, mode='wb'):\n    with open(fname, mode) as f:\n        f.write(data)\n\n\n" + _S_SFILE),
+        (_S, _S_OPENW, "        _dump(fname, serialize_obj(obj), 'ab')\n")]),
+    dict(name='R19.16 pathlib open for append', rules=('R19.16',), edits=[
+        (_S, "import tempfile\n", "import tempfile\nimport pathlib\n"),
+        (_S, "        with open(fname, 'wb') as f:", "        with pathlib.Path(fname).open('ab') as f:")]),
+]
+
+SILENT += [
+    # R19.16
+    dict(name='payload file mode in a local', edits=[
+        (_S, _S_FNAME, "    if not fname:\n        fname = _obj_file_path\n\n    how = 'wb'\n    try:\n        with open(fname, how) as f:\n")]),
+    dict(name='payload file opened w+b by keyword, module constant', edits=[
+        (_S, "_obj_file_path = os.path.join(_obj_dir, _obj_file_name)\n", "_obj_file_path = os.path.join(_obj_dir, _obj_file_name)\n_WMODE         = 'w+b'\n"),
+        (_S, "        with open(fname, 'wb') as f:", "        with open(file=fname, mode=_WMODE) as f:")]),
+    dict(name='extracted writer helper with the mode as a defaulted parameter', edits=[
+        (_S, _S_SFILE, "def _dump(fname, data, mode='wb'):\n    with open(fname, mode) as f:\n        f.write(data)\n\n\n" + _S_SFILE),
+        (_S, _S_OPENW, "        _dump(fname, serialize_obj(obj))\n")]),
+    dict(name='extracted writer helper, the caller passes the mode', edits=[
+        (_S, _S_SFILE, "def _dump(fname, data, mode=None):\n    with open(fname, mode or 'wb') as f:\n        f.write(data)\n\n\n" + _S_SFILE),
+        (_S, _S_OPENW, "        _dump(fname, serialize_obj(obj), mode='wb')\n")]),
+    dict(name='payload written with pathlib write_bytes', edits=[
+        (_S, "import tempfile\n", "import tempfile\nimport pathlib\n"),
+        (_S, _S_OPENW, "        pathlib.Path(fname).write_bytes(serialize_obj(obj))\n")]),
+    dict(name='payload encoded before the file is opened, handle not in a with statement', edits=[
+        (_S, _S_OPENW, "        data = serialize_obj(obj)\n        out = open(fname, 'wb')\n        try:\n            out.write(data)\n        finally:\n            out.close()\n")]),
+    dict(name='serialize_file appends a line to a text log next to the payload file', edits=[
+        (_S, "        return fname\n    except Exception as e:\n        raise SerializationError(\"Failed to serialize object to file\"",
+             "        with open(fname + '.log', 'a') as log:\n            log.write('%s\\n' % type(obj))\n        return fname\n    except Exception as e:\n        raise SerializationError(\"Failed to serialize object to file\"")]),
+    dict(name='reader opens the file with an explicit mode keyword', edits=[
+        (_S, "        with open(fname, 'rb') as f:", "        with open(fname, mode='rb') as f:")]),
 ]
